@@ -40,7 +40,7 @@ TIERS = {
 
 ATTR = {"auth": "tls.auth", "time": "tls.check_time", "crl": "tls.check_crl", "vpn": "tls.verify_peer_name",
         "client": "tls.client"}
-NAMES = {"good": "localhost", "bad": "otherhost", "multi": "otherhost:localhost"}
+NAMES = {"good": "localhost", "bad": "otherhost", "multi": "otherhost:localhost", "w3": "w.c09.example"}
 ASAN_ENV = {"ASAN_OPTIONS": "detect_leaks=0:abort_on_error=0:exitcode=99", "UBSAN_OPTIONS": "print_stacktrace=1"}
 
 
@@ -93,6 +93,12 @@ def crosscheck(tables, man):
         in_cn = leaf["cn"] == expect
         cls = ("both" if in_san and in_cn else "san" if in_san else
                ("cnonly" if leaf["san"] is None else "cn") if in_cn else "none")
+        if cls == "none":
+            # the second expected name: present as such, or covered only by a wildcard pattern
+            w3 = NAMES["w3"]
+            pat = "*." + w3.split(".", 1)[1]
+            allnames = (leaf["san"] or []) + [leaf["cn"]]
+            cls = "w3" if w3 in (leaf["san"] or []) else "wild" if pat in allnames else "none"
         if cls != t["name"]:
             bad.append("%s: name class %s, specification says %s" % (p, cls, t["name"]))
         if serial2id.get(leaf["serial"]) != t["leaf"]:
